@@ -233,11 +233,17 @@ fn c04_shard(ctx: &Ctx, out: &mut ShardOut) {
     let pool = crate::sched::Pool::new();
     let b = super::concchecks::budget_for(ctx.tier, ctx.shard_seed(6));
     super::concchecks::C04C.run(ctx, &pool, 31, ctx.share(ctx.by_tier(240, 8_000)) as u32, &b, out);
+    for (i, c) in super::concchecks::C04_ALL.iter().enumerate().skip(1) {
+        c.run(ctx, &pool, 32 + i as u64, ctx.share(ctx.by_tier(160, 4_000)) as u32, &b, out);
+    }
 }
 
 fn c04_replay(sub: &str, case: &Value) -> Result<(), CaseFail> {
     match sub {
-        "conc" => super::concchecks::C04C.replay(&crate::sched::Pool::new(), case, &super::concchecks::budget_for(Tier::Thorough, 1)),
+        s if s.starts_with("conc") => {
+            let c = super::concchecks::C04_ALL.iter().find(|c| c.sub == s).unwrap_or(&&super::concchecks::C04C);
+            c.replay(&crate::sched::Pool::new(), case, &super::concchecks::budget_for(Tier::Thorough, 1))
+        }
         _ => replay_seq("C04", sub, case, C04_OR),
     }
 }
